@@ -1520,6 +1520,10 @@ class NodeLiteral:
         self.pos = pos
 
     def evaluate(self, environment):
+        if self.value.isString():
+            # strings can be changed in place (s[i] = c): hand out a copy,
+            # the literal of the program text must stay what it is
+            return ValueString(self.value.value)
         return self.value
 
     def __repr__(self):
